@@ -39,6 +39,22 @@ fn enable_cse_merge_fix_so_can_be_disabled_for_tests(_opts: Rc<dyn CompilerOpts>
     true
 }
 
+/// Apply null_optimization to a whole function body or program.  When the code
+/// is a quoted constant (q . DATA) it is left alone: null_optimization is told
+/// it starts on a list spine, so it would not see the quote at the root and
+/// would rewrite every (1) inside DATA to ().
+fn null_optimization_of_code(code: Rc<SExp>) -> (bool, Rc<SExp>) {
+    if let SExp::Cons(_, head, _) = code.borrow() {
+        if let SExp::Atom(_, name) = head.atomize() {
+            if name == vec![1] || name == b"q" {
+                return (false, code);
+            }
+        }
+    }
+
+    null_optimization(code, true)
+}
+
 impl Strategy23 {
     pub fn new() -> Self {
         Strategy23 {}
@@ -201,7 +217,7 @@ impl Optimization for Strategy23 {
         _helper: Option<&HelperForm>,
         code: Rc<SExp>,
     ) -> Result<Rc<SExp>, CompileErr> {
-        let (null_worked, result) = null_optimization(code.clone(), true);
+        let (null_worked, result) = null_optimization_of_code(code.clone());
         let (double_worked, dbl_result) = remove_double_apply(result, true);
         let (brief_worked, brief_result) = brief_path_selection(dbl_result);
         if null_worked || double_worked || brief_worked {
@@ -244,7 +260,7 @@ impl Optimization for Strategy23 {
         _opts: Rc<dyn CompilerOpts>,
         generated: SExp,
     ) -> Result<SExp, CompileErr> {
-        let (null_worked, result) = null_optimization(Rc::new(generated.clone()), true);
+        let (null_worked, result) = null_optimization_of_code(Rc::new(generated.clone()));
         let (double_worked, dbl_result) = remove_double_apply(result, true);
         let (brief_worked, brief_result) = brief_path_selection(dbl_result);
         if null_worked || double_worked || brief_worked {
